@@ -233,7 +233,7 @@ class DummyFixedExtensionHeader (FixedExtensionHeader):
   Just saves the raw body data
   """
   def _init (self, *args, **kw):
-    self.raw_body = '\x00' * (self.LENGTH - 1)
+    self.raw_body = b'\x00' * (self.LENGTH - 1)
   def _pack_body (self):
     return self.raw_body
   @classmethod
@@ -415,12 +415,14 @@ class ipv6 (packet_base):
     else:
       self.payload_length = len(payload)
 
+    ehs = b''.join(eh.pack() for eh in self.extension_headers)
+    self.payload_length += len(ehs)
 
     r = struct.pack("!IHBB", vtcfl, self.payload_length, nht, self.hop_limit)
     r += self.srcip.raw
     r += self.dstip.raw
 
-    return r
+    return r + ehs
 
   def _to_str (self):
     ehs = [ipproto_to_str(self.next_header_type)]
